@@ -591,11 +591,11 @@ def run(ctx):
     cs = corpus()
     run_batch(ctx, cs, cli_every=1)
     # relation cases
-    n = ctx.count(700)
+    n = ctx.count(1200)
     cases = [gen_case(rng, True) for _ in range(n)]
     run_batch(ctx, cases, cli_every=max(1, n // 60))
     # configuration-coverage cases (contexts, binary, separators, no path): model vs code only
-    n2 = ctx.count(500)
+    n2 = ctx.count(800)
     cases2 = [gen_case(rng, False) for _ in range(n2)]
     run_batch(ctx, cases2, cli_every=0)
     check_small_models(ctx)
